@@ -29,14 +29,15 @@ import (
 type SentMsg struct {
 	Dest  uint8  `json:"dest"`
 	Nonce uint64 `json:"nonce"`
+	Fp    uint64 `json:"fp,omitempty"`    // number of the message's content within the case (fp.go)
 	Other bool   `json:"other,omitempty"` // not a transfer message (retry request)
 }
 
 type rig struct {
 	mu     sync.Mutex
-	got    map[uint8][]uint64 // per destination chain: the deposit nonces of the proposals written
-	others int                // non-transfer proposals written
-	want   int                // size of the batch being routed
+	got    map[uint8][]recProp // per destination chain: nonce and content of the proposals written
+	others int                 // non-transfer proposals written
+	want   int                 // size of the batch being routed
 	failed int
 	done   chan struct{}
 	in     chan []*message.Message
@@ -46,13 +47,20 @@ type nopListener struct{}
 
 func (*nopListener) ListenToEvents(context.Context, *big.Int) {}
 
+// recProp is what the fake destination-side handler keeps of a transfer message.
+type recProp struct {
+	Nonce uint64
+	Key   string
+}
+
 // transferHandler reads a transfer message like the repository's destination-side handlers do
 // (unchecked type assertion on Data).
 type transferHandler struct{}
 
 func (transferHandler) HandleMessage(m *message.Message) (*proposal.Proposal, error) {
 	d := m.Data.(transfer.TransferMessageData)
-	return proposal.NewProposal(m.Source, m.Destination, d.DepositNonce, m.ID, "transfer"), nil
+	k, _ := contentKey(m)
+	return proposal.NewProposal(m.Source, m.Destination, recProp{Nonce: d.DepositNonce, Key: k}, m.ID, "transfer"), nil
 }
 
 type retryHandler struct{}
@@ -71,7 +79,7 @@ func (e *recExecutor) Execute(props []*proposal.Proposal) error {
 	e.r.mu.Lock()
 	defer e.r.mu.Unlock()
 	for _, p := range props {
-		if n, ok := p.Data.(uint64); ok && p.Type == "transfer" {
+		if n, ok := p.Data.(recProp); ok && p.Type == "transfer" {
 			e.r.got[e.id] = append(e.r.got[e.id], n)
 		} else {
 			e.r.others++
@@ -129,6 +137,10 @@ func quiet(what string, d time.Duration) bool {
 	}
 }
 
+// routeDeadline: how long one batch may take through the real Relayer.route (it needs microseconds);
+// below the parent's deadline for the whole case, so that the child itself reports it.
+const routeDeadline = 6 * time.Second
+
 const (
 	inHandlers = "sygma-relayer/chains/"
 	inRoute    = "relayer.(*Relayer).route"
@@ -140,7 +152,7 @@ func getRig() *rig {
 	if theRig != nil {
 		return theRig
 	}
-	r := &rig{got: map[uint8][]uint64{}, done: make(chan struct{}, 1), in: make(chan []*message.Message)}
+	r := &rig{got: map[uint8][]recProp{}, done: make(chan struct{}, 1), in: make(chan []*message.Message)}
 	mh := message.NewMessageHandler()
 	mh.RegisterMessageHandler(transfer.TransferMessageType, transferHandler{})
 	mh.RegisterMessageHandler(retry.RetryMessageType, retryHandler{})
@@ -170,9 +182,9 @@ func pushed(r *rig, ch chan []*message.Message) [][]*message.Message {
 
 // routeAll hands the batches, one after the other, to the real Relayer and returns what the
 // destination chains wrote.  ok=false: a route did not finish.
-func (r *rig) routeAll(batches [][]*message.Message) (map[uint8][]uint64, bool) {
+func (r *rig) routeAll(batches [][]*message.Message) (map[uint8][]recProp, bool) {
 	r.mu.Lock()
-	r.got = map[uint8][]uint64{}
+	r.got = map[uint8][]recProp{}
 	r.mu.Unlock()
 	for _, b := range batches {
 		r.mu.Lock()
@@ -185,7 +197,7 @@ func (r *rig) routeAll(batches [][]*message.Message) (map[uint8][]uint64, bool) 
 		r.in <- b
 		select {
 		case <-r.done:
-		case <-time.After(10 * time.Second):
+		case <-time.After(routeDeadline):
 			return nil, false
 		}
 		quiet(inRoute, 5*time.Second)
@@ -196,7 +208,18 @@ func (r *rig) routeAll(batches [][]*message.Message) (map[uint8][]uint64, bool) 
 }
 
 // project: the batches as the judge sees them (nonce mapping for BTC), in a canonical order.
-func project(batches [][]*message.Message, nonce func(uint64) uint64) [][]*SentMsg {
+func project(batches [][]*message.Message, nonce func(uint64) uint64, fpt *fpTable) [][]*SentMsg {
+	var keys []string
+	for _, b := range batches {
+		for _, m := range b {
+			if k, ok := contentKey(m); ok {
+				if _, seen := fpt.ids[k]; !seen {
+					keys = append(keys, k)
+				}
+			}
+		}
+	}
+	fpt.addAll(keys)
 	out := make([][]*SentMsg, len(batches))
 	for i, b := range batches {
 		out[i] = make([]*SentMsg, len(b))
@@ -207,6 +230,8 @@ func project(batches [][]*message.Message, nonce func(uint64) uint64) [][]*SentM
 			s := &SentMsg{Dest: m.Destination}
 			if n, ok := msgNonce(m); ok {
 				s.Nonce = nonce(n)
+				k, _ := contentKey(m)
+				s.Fp = fpt.id(k)
 			} else {
 				s.Other = true
 			}
@@ -220,19 +245,19 @@ func project(batches [][]*message.Message, nonce func(uint64) uint64) [][]*SentM
 
 // consume: HandleEvents has returned; collect what it pushed, feed it to the relayer, fill in the
 // observation (groups = what each destination chain received).
-func consume(o *Obs, ch chan []*message.Message, nonce func(uint64) uint64) {
+func consume(o *Obs, ch chan []*message.Message, nonce func(uint64) uint64, fpt *fpTable) {
 	r := getRig()
 	batches := pushed(r, ch)
-	o.Sent = project(batches, nonce)
+	o.Sent = project(batches, nonce, fpt)
 	got, ok := r.routeAll(batches)
 	if !ok {
-		o.Crashed, o.Note = true, "Relayer.route did not finish"
+		o.Crashed, o.Stuck, o.Note = true, true, "Relayer.route did not finish"
 		return
 	}
-	mapped := map[uint8][]uint64{}
+	mapped := map[uint8][][2]uint64{}
 	for k, l := range got {
 		for _, n := range l {
-			mapped[k] = append(mapped[k], nonce(n))
+			mapped[k] = append(mapped[k], [2]uint64{nonce(n.Nonce), fpt.id(n.Key)})
 		}
 	}
 	o.Groups = sortedGroups(mapped)
